@@ -112,7 +112,7 @@ struct Driver
     int workers = 16;
     uint64_t det_runs = 200; bool det_set = false;
     double max_seconds = 0;
-    int item_timeout = 60;
+    int item_timeout = 60; bool item_timeout_set = false;
 
     explicit Driver(Engine *e) : eng(e) {}
 
@@ -577,7 +577,7 @@ struct Driver
         load_known();
         if (!runs) runs = eng->default_runs(prop, tier);
         if (!det_set) det_runs = tier ? 2000 : 200;
-        item_timeout = tier ? 60 : 10; // CPU seconds per item; the thorough tier has items that legitimately take 25 s
+        if (!item_timeout_set) item_timeout = 60; // CPU seconds per item (the heaviest legitimate item, a 4 GiB CRC message in the thorough tier, takes about 25 s)
         if (max_seconds <= 0) max_seconds = tier ? 1500 : 45; // wall-clock cap: only stops scheduling further runs, reported when hit
         double deadline = max_seconds > 0 ? t0 + max_seconds : 0;
         BatchOut bo;
@@ -811,6 +811,7 @@ static inline int driver_main(int argc, char **argv)
         else if (a == "--known") d.known_path = val();
         else if (a == "--det") { d.det_runs = strtoull(val(), nullptr, 10); d.det_set = true; }
         else if (a == "--max-seconds") d.max_seconds = atof(val());
+        else if (a == "--item-timeout") { d.item_timeout = atoi(val()); d.item_timeout_set = true; } // for slow instrumentation (valgrind)
         else if (a == "--index") gen_index = strtoull(val(), nullptr, 10);
         else if (a == "--quiet") {}
         else file = a;
